@@ -537,6 +537,17 @@ func (e *Enc) call(fr *Frame, st *State, c *ssa.Call) *State {
 		e.ufResult(fr, c, "X_"+san(name), args, cc.Args)
 		e.olderResults(fr, c, st)
 		e.resultFacts(fr, c, callee)
+		if (name == "context.Background" || name == "context.TODO") && len(args) == 0 {
+			// trusted: the empty context answers nil for every key
+			if res, ok := fr.vals[c]; ok {
+				uf := "IM_" + typeKey(c.Type()) + "_Value_0"
+				e.d.decl(uf, "(Iface Iface) Iface")
+				q := e.fresh("q_key")
+				e.assume(fmt.Sprintf("(forall ((%s Iface)) (! (= (%s %s %s) (mk_Iface 0 0)) :pattern ((%s %s %s))))", q, uf, res, q, uf, res, q))
+				e.assume("(not (= (itag " + res + ") 0))")
+				e.usedTrusted["context.Background: Value(key)=nil for every key"] = true
+			}
+		}
 		return st
 	}
 	st = e.havocCall(fr, st, c, false)
